@@ -10,8 +10,8 @@ from .. import drive, fstree, model, parse
 from ..engine import Outcome, Part, Prop
 from . import common
 
-TESTS_PATTERNS = ['^tests_', '^f?tests_', r'tests_q\d+$', '^(tests|checks)_', '^tests']
-FILE_PATTERNS = ['^test_', '^test', r'_q\d$', 'other']
+TESTS_PATTERNS = ['^tests_', '^f?tests_', r'tests_q\d+$', '^(tests|checks)_', '^tests', 'tests_']
+FILE_PATTERNS = ['^test_', '^test', r'_q\d$', 'other', 'est_q']
 DEFAULT_IGNORE = {'.git', '.svn', 'CVS', '{arch}', '.arch-ids', '_darcs'}
 IGNORE_FOLDERS = {'.git', 'node_modules', '__pycache__'}
 
@@ -21,20 +21,40 @@ def cases(draw):
     tree = draw(fstree.trees(max_depth=3, unique_stems=True))
     subdirs = [p for p, node in fstree.iter_dirs(tree) if p and all(fstree.identifier(x) for x in p.split(os.sep))]
     roots = ['']
-    extra = draw(st.sampled_from(['none', 'none', 'dup', 'nested', 'dup+nested', 'test-path-dup']))
+    extra = draw(st.sampled_from(['none', 'none', 'dup', 'nested', 'dup+nested', 'test-path-dup', 'package-path',
+                                  'package-path', 'package-path-only']))
     if 'dup' in extra:
         roots.append('')
     if 'nested' in extra and subdirs:
         roots.append(draw(st.sampled_from(subdirs)))
+    pkg_roots = []
+    if extra == 'package-path' and subdirs:
+        # a sub-directory of the tree given once more as "--package-path DIR its.dotted.name": the same files are
+        # reached through two search roots that carry different package labels but give them the same module names
+        for sd in draw(st.lists(st.sampled_from(subdirs), min_size=1, max_size=2, unique=True)):
+            pkg_roots.append(sd)
+    elif extra == 'package-path-only' and subdirs:
+        # no --path at all: the tree's top directory is on sys.path already (as an installed distribution would be) and
+        # only some of its packages are searched, each named by --package-path DIR dotted.name
+        roots = []
+        for sd in draw(st.lists(st.sampled_from(subdirs), min_size=1, max_size=2, unique=True)):
+            pkg_roots.append(sd)
+    elif extra in ('package-path', 'package-path-only'):
+        extra = 'none'
     if draw(st.booleans()):
         roots.reverse()
     stems = sorted({os.path.splitext(f)[0] for _, node in fstree.iter_dirs(tree) for f in node['files']})
     mods = []
-    if draw(st.integers(0, 2)) == 0 and stems:
+    if (draw(st.integers(0, 2)) == 0 or (pkg_roots and draw(st.booleans()))) and stems:
+        words = ['tests_', 'zqpkg', r'\.', '^zqsub', 'test_']
+        for sd in pkg_roots:
+            # patterns that look at the package part of the dotted name
+            parts = sd.split(os.sep)
+            words += ['^' + parts[0], re.escape('.'.join(parts)) + r'\.', parts[-1] + r'\.']
         base = st.one_of(st.sampled_from(stems).map(lambda s: re.escape(s) + '$'),
-                         st.sampled_from(['tests_', 'zqpkg', r'\.', '^zqsub', 'test_']))
+                         st.sampled_from(words))
         mods = draw(st.lists(st.one_of(base, base.map(lambda p: '!' + p)), min_size=1, max_size=2))
-    return {'tree': tree, 'roots': roots, 'mode': extra,
+    return {'tree': tree, 'roots': roots, 'mode': extra, 'pkg_roots': pkg_roots,
             'tests_pattern': draw(st.sampled_from(TESTS_PATTERNS)),
             'file_pattern': draw(st.sampled_from(FILE_PATTERNS)),
             'module': mods,
@@ -52,12 +72,16 @@ def expected_files(case, base):
     found = []
     seen = set()
     roots_abs = [os.path.join(base, r) if r else base for r in case['roots']]
+    # (a --package-path root names its files exactly as the enclosing --path root does, so it adds no new name)
 
     def module_name(path):
         # with nested roots a file has one dotted name per root that contains it; --module accepts the file
         # when any of them is accepted (the longest root is tried first)
-        return [path[len(r) + 1:][:-3].replace(os.sep, '.')
-                for r in sorted(set(roots_abs), key=len, reverse=True) if path.startswith(r + os.sep)]
+        names = [path[len(r) + 1:][:-3].replace(os.sep, '.')
+                 for r in sorted(set(roots_abs), key=len, reverse=True) if path.startswith(r + os.sep)]
+        if not names:     # only reached through --package-path roots: DIR's files are named dotted.name.<relative>
+            names = [path[len(base) + 1:][:-3].replace(os.sep, '.')]
+        return names
 
     def walk(rel):
         node = nodes[rel]
@@ -87,7 +111,7 @@ def expected_files(case, base):
                 continue
             yield from walk(os.path.join(rel, nm) if rel else nm)
 
-    for r in case['roots']:
+    for r in list(case['roots']) + list(case.get('pkg_roots') or ()):
         for f in walk(r):
             if f in seen:
                 excluded.setdefault('duplicate-root', []).append(f)
@@ -126,13 +150,20 @@ class Discover(Part):
                     args += ['--test-path', r]
                 else:
                     args += ['--path', r]
+            for sd in case.get('pkg_roots') or ():
+                args += ['--package-path', os.path.join(base, sd), sd.replace(os.sep, '.')]
             for m in case['module']:
                 args += ['-m', m]
             orders = []
             for k, seed in enumerate(case['order_seeds']):
                 trace = os.path.join(tmp, 'trace%d.jsonl' % k)
+                import sys
+                if not case['roots']:
+                    sys.path.insert(0, base)      # (run_raw restores sys.path)
                 with fstree.ScandirOrder(seed):
                     run = drive.run_raw(args, trace_path=trace, purge_under=base)
+                while base in sys.path:
+                    sys.path.remove(base)
                 viol += common.run_escaped(run, 'C14')
                 imported = [e['file'] for e in fstree.read_trace(trace)]
                 orders.append(imported)
@@ -155,7 +186,16 @@ class Discover(Part):
                 if len(listed) != len(set(listed)) or len(listed) != len(imported):
                     viol.append(('C14/loaded-twice', '%d modules imported but %d tests listed (%d distinct)'
                                  % (len(imported), len(listed), len(set(listed)))))
-                if len(case['roots']) == 1 and imported != want and sorted(imported) == sorted(want):
+                # in every mode: the files of one directory are loaded in ascending order of their names
+                by_dir = {}
+                for f in imported:
+                    by_dir.setdefault(os.path.dirname(f), []).append(os.path.basename(f))
+                for d_, fs in by_dir.items():
+                    if fs != sorted(fs) and len(fs) == len(set(fs)):
+                        viol.append(('C14/not-sorted', 'files of directory %s loaded in the order %s'
+                                     % (d_[len(base) + 1:] or '.', fs)))
+                        break
+                if len(case['roots']) == 1 and not case.get('pkg_roots') and imported != want and sorted(imported) == sorted(want):
                     viol.append(('C14/not-sorted', 'import order %s, sorted walk order %s'
                                  % ([x[len(base) + 1:] for x in imported], [x[len(base) + 1:] for x in want])))
             if len(orders) == 2 and orders[0] != orders[1]:
@@ -169,7 +209,7 @@ class Discover(Part):
         for k in excluded:
             labels.append('excluded:' + k)
         labels.append('roots:' + case['mode'])
-        overlap = len(case['roots']) >= 2
+        overlap = len(case['roots']) + len(case.get('pkg_roots') or ()) >= 2
         return Outcome(viol, labels, len(rules) >= 2 and overlap and len(want) >= 1)
 
 
@@ -185,7 +225,7 @@ class C14(Prop):
                   'reference predicate, each once, in an order that is identical for both enumeration orders (and equals '
                   'the sorted walk for a single root).')
     level_note = ('File stems are unique per tree so that every discovered file has a dotted name that resolves to it '
-                  '(a precondition of Python\'s import system); ASCII names, no symlinks; -s/--package not generated.')
+                  '(a precondition of Python\'s import system); ASCII names, no symlinks; -s/--package not generated here (C03 does).')
     rule = ('Hypothesis trees (depth <=3, 0..4 files and 0..3 sub-directories per directory from identifier/odd/ignored '
             'name pools), 5 tests-patterns x 4 file-patterns, root modes none/dup/nested/dup+nested/test-path-dup, '
             'optional -m patterns, two scandir permutations + creation permutation. Non-trivial = files excluded by >=2 '
